@@ -5,8 +5,8 @@ C02 driver: runs the Jacobian of the transform model (`X.jacobian` of Model/C01,
 transcendental functions / rounding of each operation can be from the model value: the condition estimate
 that scales the correspondence tolerance; same construction as in the C01 driver).
 
-request : `jac <Class> [params] [xs]`                  (same parameter layout as the C01 driver)
-          `jac Softmax [] [row;row;…]`
+request : `jac|fwd <Class> [params] [xs]`              (same parameter layout as the C01 driver)
+          `jac|fwd Softmax [] [row;row;…]`   (`[k]` instead of `[]`: the array has k > 2 dimensions)
           `pd Softmax [] [row]`                          matrix of partial derivatives of one row
 reply   : `ok [state] [values] [bounds]`  |  `err <name>`  |  `bad-op`
           (`state` = inner BoxCox2 `nu,lam` after the call for the delegating classes, `[]` otherwise)
@@ -67,72 +67,60 @@ variable {α : Type} [Add α] [Sub α] [Mul α] [Div α] [Neg α] [LT α] [Decid
 
 def errName : Err → String
   | .nuUnset => "nuUnset" | .lamUnset => "lamUnset" | .xmaxUnset => "xmaxUnset"
-  | .negative => "negative" | .sumGe1 => "sumGe1"
+  | .negative => "negative" | .sumGe1 => "sumGe1" | .ndimGt2 => "ndimGt2" | .unknownName => "unknownName"
 
 /-- new inner state and one `Option α` per input -/
 abbrev Out (α : Type) := Except String (List α × List (Option α))
 
 /-- `jacobian` of one object on a 1-D array -/
-def runJac (cls : String) (ps : List (Option α)) (xs : List α) : Out α :=
+def runOp (isF : Bool) (cls : String) (ps : List (Option α)) (xs : List α) : Out α :=
   match cls, ps with
   | "Identity", [] =>
     let p : Identity.Params α := {}
-    .ok ([], xs.map (Identity.jacobian p))
+    .ok ([], xs.map (if isF then Identity.forward p else Identity.jacobian p))
   | "Logit", [some lower, some logdelta] =>
     let p : Logit.Params α := ⟨lower, logdelta⟩
-    .ok ([], xs.map (Logit.jacobian p))
+    .ok ([], xs.map (if isF then Logit.forward p else Logit.jacobian p))
   | "Log", [some nu, base, some mininu] =>
     let p : Log.Params α := ⟨nu, base, mininu⟩
-    .ok ([], xs.map (Log.jacobian p))
+    .ok ([], xs.map (if isF then Log.forward p else Log.jacobian p))
   | "BoxCox2", [some nu, some lam, some mininu] =>
     let p : BoxCox2.Params α := ⟨nu, lam, mininu⟩
-    .ok ([], xs.map (BoxCox2.jacobian p))
+    .ok ([], xs.map (if isF then BoxCox2.forward p else BoxCox2.jacobian p))
   | "BoxCox1lam", [some lam, nu, some mininu, some bnu, some blam] =>
-    -- every element goes through the object's `jacobian` (sync first); the state after the call is the synced one
+    -- one call of the object's method on the whole array: the inner BoxCox2 is re-synchronised once, first
     let s : BoxCox1lam.State α := ⟨lam, nu, ⟨bnu, blam, mininu⟩⟩
-    match BoxCox1lam.State.sync s with
+    match (if isF then BoxCox1lam.State.forwardArr s xs else BoxCox1lam.State.jacobianArr s xs) with
     | .error e => .error (errName e)
-    | .ok s' =>
-      let rs := xs.map fun x => match BoxCox1lam.State.jacobian s x with
-        | .ok (_, r) => r
-        | .error _ => none
-      .ok ([s'.bc.nu, s'.bc.lam], rs)
+    | .ok (s', rs) => .ok ([s'.bc.nu, s'.bc.lam], rs)
   | "BoxCox1nu", [some nu, lam, some mininu, some bnu, some blam] =>
     let s : BoxCox1nu.State α := ⟨nu, lam, ⟨bnu, blam, mininu⟩⟩
-    match BoxCox1nu.State.sync s with
+    match (if isF then BoxCox1nu.State.forwardArr s xs else BoxCox1nu.State.jacobianArr s xs) with
     | .error e => .error (errName e)
-    | .ok s' =>
-      let rs := xs.map fun x => match BoxCox1nu.State.jacobian s x with
-        | .ok (_, r) => r
-        | .error _ => none
-      .ok ([s'.bc.nu, s'.bc.lam], rs)
+    | .ok (s', rs) => .ok ([s'.bc.nu, s'.bc.lam], rs)
   | "BoxCox2sym", [some nu, some lam, some mininu, some bnu, some blam] =>
     let s : BoxCox2sym.State α := ⟨nu, lam, ⟨bnu, blam, mininu⟩⟩
-    let s' := BoxCox2sym.State.sync s
-    .ok ([s'.bc.nu, s'.bc.lam], xs.map fun x => (BoxCox2sym.State.jacobian s x).2)
+    let (s', rs) := if isF then BoxCox2sym.State.forwardArr s xs else BoxCox2sym.State.jacobianArr s xs
+    .ok ([s'.bc.nu, s'.bc.lam], rs)
   | "YeoJohnson", [some nu, some scale, some lam] =>
     let p : YeoJohnson.Params α := ⟨nu, scale, lam⟩
-    .ok ([], xs.map (YeoJohnson.jacobian p))
+    .ok ([], xs.map (if isF then YeoJohnson.forward p else YeoJohnson.jacobian p))
   | "LogSinh", [some loga, some logb, xmax] =>
     let s : LogSinh.State α := ⟨loga, logb, xmax⟩
-    match LogSinh.State.params s with
+    match (if isF then LogSinh.State.forwardArr s xs else LogSinh.State.jacobianArr s xs) with
     | .error e => .error (errName e)
-    | .ok _ => .ok ([], xs.map fun x => match LogSinh.State.jacobian s x with
-        | .ok r => r
-        | .error _ => none)
+    | .ok rs => .ok ([], rs)
   | "Reciprocal", [some nu, some mininu] =>
     let p : Reciprocal.Params α := ⟨nu, mininu⟩
-    .ok ([], xs.map (Reciprocal.jacobian p))
+    .ok ([], xs.map (if isF then Reciprocal.forward p else Reciprocal.jacobian p))
   | "Sinh", [some nu, some scale] =>
     let p : Sinh.Params α := ⟨nu, scale⟩
-    .ok ([], xs.map (Sinh.jacobian p))
+    .ok ([], xs.map (if isF then Sinh.forward p else Sinh.jacobian p))
   | "Manly", [some lam, xmax] =>
     let s : Manly.State α := ⟨lam, xmax⟩
-    match Manly.State.params s with
+    match (if isF then Manly.State.forwardArr s xs else Manly.State.jacobianArr s xs) with
     | .error e => .error (errName e)
-    | .ok _ => .ok ([], xs.map fun x => match Manly.State.jacobian s x with
-        | .ok r => r
-        | .error _ => none)
+    | .ok rs => .ok ([], rs)
   | _, _ => .error "bad-op"
 end
 
@@ -144,11 +132,11 @@ def fmtVals (l : List (Option Float)) : String := fmtList (l.map fmtOptFloat)
 def fmtMatF (rows : List (List Float)) : String :=
   "[" ++ ";".intercalate (rows.map fun r => ",".intercalate (r.map hexOfFloat)) ++ "]"
 
-def handleScalar (cls ps xs : String) : String :=
+def handleScalar (isF : Bool) (cls ps xs : String) : String :=
   match parseFloatList? ps, parseFloatList? xs with
   | some ps, some xs =>
-    let rF : Out Float := runJac cls (ps.map optF) xs
-    let rE : Out EF := runJac cls (ps.map optEF) (xs.map EF.ofF)
+    let rF : Out Float := runOp isF cls (ps.map optF) xs
+    let rE : Out EF := runOp isF cls (ps.map optEF) (xs.map EF.ofF)
     match rF, rE with
     | .ok (st, vs), .ok (_, es) =>
       let bounds := es.map fun o => match o with
@@ -163,13 +151,30 @@ def handleScalar (cls ps xs : String) : String :=
     | _, .error e => "err " ++ e
   | _, _ => "bad-op"
 
-def handleSoftmaxJac (rows : String) : String :=
+def handleSoftmaxJac (nd rows : String) : String :=
+  let ndim : Nat := match parseNatList? nd with
+    | some [k] => k
+    | _ => 2
   match parseFloatMat? rows with
   | some rows =>
-    let rF := Softmax.jacobianM (α := Float) rows
-    let rE := Softmax.jacobianM (α := EF) (rows.map fun r => r.map EF.ofF)
+    let rF := Softmax.jacobianND (α := Float) ndim rows
+    let rE := Softmax.jacobianND (α := EF) ndim (rows.map fun r => r.map EF.ofF)
     match rF, rE with
     | .ok vs, .ok es => s!"ok [] {fmtMatF (vs.map fun v => [v])} {fmtMatF (es.map fun r => [r.e])}"
+    | .error e, _ => "err " ++ errName e
+    | _, .error e => "err " ++ errName e
+  | none => "bad-op"
+
+def handleSoftmaxFwd (nd rows : String) : String :=
+  let ndim : Nat := match parseNatList? nd with
+    | some [k] => k
+    | _ => 2
+  match parseFloatMat? rows with
+  | some rows =>
+    let rF := Softmax.forwardND (α := Float) ndim rows
+    let rE := Softmax.forwardND (α := EF) ndim (rows.map fun r => r.map EF.ofF)
+    match rF, rE with
+    | .ok vs, .ok es => s!"ok [] {fmtMatF vs} {fmtMatF (es.map fun r => r.map (·.e))}"
     | .error e, _ => "err " ++ errName e
     | _, .error e => "err " ++ errName e
   | none => "bad-op"
@@ -187,9 +192,11 @@ def handleSoftmaxPd (rows : String) : String :=
 
 def handle (toks : List String) : String :=
   match toks with
-  | ["jac", "Softmax", _, rows] => handleSoftmaxJac rows
+  | ["jac", "Softmax", nd, rows] => handleSoftmaxJac nd rows
   | ["pd", "Softmax", _, rows] => handleSoftmaxPd rows
-  | ["jac", cls, ps, xs] => handleScalar cls ps xs
+  | ["fwd", "Softmax", nd, rows] => handleSoftmaxFwd nd rows
+  | ["jac", cls, ps, xs] => handleScalar false cls ps xs
+  | ["fwd", cls, ps, xs] => handleScalar true cls ps xs
   | _ => "bad-op"
 
 def main : IO Unit := serve handle
